@@ -8,7 +8,7 @@ def fragmentize(prog, mode="isolated", keep=()):
     def ex(e, inbody):
         if e[0] == "counter":
             return ("str", "1")
-        if e[0] == "filled" and inbody:
+        if e[0] == "filled" and inbody and "passthrough" not in keep:
             return ("str", "F")
         return e
 
@@ -39,8 +39,10 @@ def fragmentize(prog, mode="isolated", keep=()):
                 e = ("str", "F")
             return [("with", t[1], e, ts(t[3], inbody, drop))]
         if k == "slot":
-            if inbody:
+            if inbody and "passthrough" not in keep:
                 return [("text", "(slot %s)" % t[1])]
+            if inbody:
+                return [("slot", t[1], t[2], t[3], kw(t[4], True), ts(t[5], True, drop))]
             return [("slot", t[1], t[2], t[3], kw(t[4], False), ts(t[5], False, drop))]
         if k == "fill":
             d2 = drop | ({t[3]} if t[3] else set())
